@@ -82,6 +82,16 @@ class C12(PropBase):
             vals = [(copy.deepcopy(v), copy.deepcopy(v)) for v in rng.sample(pool, min(len(pool), rng.randint(3, 5)))]
             items.append({"variants": [t], "vals": vals, "marshal_heavy": True})
             items.append(items[-1])  # twice as likely to be drawn
+        if rng.random() < 0.25:
+            # a class with an annotated private field and a class variable: what the routines of one
+            # direction make of them must not depend on whether the other direction was built first
+            world["modules"][0]["decls"].append({"d": "raw", "n": "VwPriv12", "src": (
+                "@dataclasses.dataclass\nclass VwPriv12:\n    owner: str\n    _revision: int = 0\n    K: typing.ClassVar[int] = 7\n")})
+            pt = {"k": "ref", "m": mods[0], "n": "VwPriv12"}
+            pv = [({"$obj": f"{mods[0]}.VwPriv12", "f": {"owner": o, "_revision": r}}, {"$dict": [["owner", o], ["_revision", r]]})
+                  for o, r in (("ann", 7), ("bo", 0), ("", -1))]
+            items.append({"variants": [pt, {"k": "list", "a": pt}], "vals": pv, "priv": True})
+            items.append(items[-1])
         retry = None
         if rng.random() < 0.3:
             # a small recursive class of the run's own: inputs that are refused deep inside the recursion,
@@ -122,6 +132,8 @@ class C12(PropBase):
             it = rng.choice(items)
             t = rng.choice(it["variants"])
             v, w = rng.choice(it["vals"])
+            if it.get("priv") and t["k"] == "list":
+                v, w = {"$list": [copy.deepcopy(v)]}, {"$list": [copy.deepcopy(w)]}
             if it.get("literal"):
                 # unmarshal the literal text in a text carrier; results are mutated by later faults
                 steps.append({"id": len(steps), "t": t, "mod": rng.choice(mods), "op": "unmarshal", "x": hist.carry(v, rng.choice(["str", "str", "bytes", "mv"]))})
